@@ -461,20 +461,17 @@ class TriMesh(PointCloud):
         # Note that some triangles may appear more than once as it's possible
         # for a triangle to only share one edge with the rest of the mesh (so
         # it would have two "lonely" edges
-        lonely_triangles = {}
-        for edge, t_i in zip(edge_indices, tri_indices):
+        edge_counts = {}
+        for edge in edge_indices:
             # Sorted the edge indices since we may see an edge (0, 1) and then
             # see it again as (1, 0) when in fact that is the same edge
             sorted_edge = tuple(sorted(edge))
-            if sorted_edge not in lonely_triangles:
-                lonely_triangles[sorted_edge] = t_i
-            else:
-                # If we've already seen the edge the we will never see it again
-                # so we can just remove it from the candidate set
-                del lonely_triangles[sorted_edge]
+            edge_counts[sorted_edge] = edge_counts.get(sorted_edge, 0) + 1
 
         mask = np.zeros(self.n_tris, dtype=bool)
-        mask[np.array(list(lonely_triangles.values()))] = True
+        for edge, t_i in zip(edge_indices, tri_indices):
+            if edge_counts[tuple(sorted(edge))] == 1:
+                mask[t_i] = True
         return mask
 
     def edge_vectors(self):
